@@ -46,7 +46,7 @@ def follow_chain(run, case, via):
     """returns (pages, objects, terminated, problems)"""
     identity = {int(k): v for k, v in case['identity'].items()}
     code, start = case['code'], case['start']
-    repo.set_identity(identity, case.get('order'))
+    repo.set_identity(identity, case.get('order'), case.get('via', 'private'), not case.get('incremental'))
     objs, pages, oid = [], 0, start
     problems = []
     while True:
@@ -209,13 +209,28 @@ def run(run):
                 starts.add(populated[-1])
             starts.add(r.randrange(256))
             for start in sorted(starts):
-                case = {'identity': identity, 'code': code, 'start': start}
+                case = {'identity': identity, 'code': code, 'start': start, 'via': ('private', 'setitem', 'update', 'properties', 'constructor')[i % 5]}
                 if i % 3 == 1:
                     # the application configured its objects in some other order than ascending id
                     order = sorted(identity)
                     r.shuffle(order)
                     case['order'] = order
                 ok, pages = check(run, case, via=(i % 4 == 0))
+                if i % 7 == 3 and case['via'] != 'constructor' and start == 0:
+                    # the application changes its identity after it has been read: set one more object, change one, empty one
+                    ident2 = dict(identity)
+                    change = {}
+                    free = [k for k in list(range(0, 7)) + list(range(0x80, 0x100)) if k not in ident2]
+                    if free:
+                        change[r.choice(free)] = 'late-%d' % i
+                    if ident2:
+                        k0 = r.choice(sorted(ident2))
+                        change[k0] = b'' if isinstance(ident2[k0], bytes) else ''
+                    ident2.update(change)
+                    case2 = {'identity': ident2, 'code': code, 'start': start, 'via': case['via'], 'incremental': True, 'order': sorted(change), 'after': case}
+                    # (incremental: only the changed objects are configured again, on top of what the first read left behind)
+                    run.count('reconfigured_identity_reads')
+                    ok2, _ = check(run, dict(case2, identity={k: ident2[k] for k in ident2}), via=False)
                 run.case(h64(repr(case)), pages >= 2 or len(populated) >= 2,
                          sample={'identity': {k: (len(v), type(v).__name__) for k, v in identity.items()}, 'code': code, 'start': start, 'pages': pages,
                                  'verdict': 'held' if ok else 'differs'},
@@ -227,6 +242,10 @@ def run(run):
 
 
 def replay(run, case):
+    if case.get('after'):
+        first = case['after']
+        first['identity'] = {int(k): v for k, v in first['identity'].items()}
+        check(run, first, via=False)            # the read that preceded the reconfiguration
     case['identity'] = {int(k): v for k, v in case['identity'].items()}
     ok, pages = check(run, case)
     print('held' if ok else 'differs', 'pages', pages)
